@@ -18,7 +18,8 @@ typedef struct {
     const int16_t* defs[RF_MAXC]; const int16_t* reps[RF_MAXC];   /* explicit levels (N entries) for nested contexts */
     const ref_stats* chunk_stats[RF_MAXC]; const ref_stats* page_stats[RF_MAXC];
     int codec; bool crc; int level_form, index_form, index_bw_extra; int pattern;
-    bool dict_offset_present; bool data_offset_at_dict; bool v2; int level_encoding;
+    bool dict_offset_present; bool data_offset_at_dict; bool v2; int level_encoding; bool absent_levels_bit_packed;
+    int logical[RF_MAXC];               /* 0 none; k >= 1: the k-th logical-type annotation that fits the column's physical type (see rf_logical) */
     ref_file_layout fl;
 } rfile_t;
 /* nesting contexts: chain of groups above the leaf */
